@@ -43,9 +43,15 @@ FIXED = [
  ("F47", "C03", "fix: an empty CDATA section does not create an empty text node", "<a><![CDATA[]]></a> was parsed into an element with an empty text node (lost on serialise + reparse)"),
  ("F48", "C03", "fix: parse_fragment rejects input that ends inside a start tag", "parse_fragment(\"<x\") was accepted (pending start tag silently dropped)"),
  ("F49", "C03", "fix: reject processing instructions with the reserved target", "<?XML a?> and <?xml/x?> were accepted as processing instructions; the latter could not be reparsed after serialisation"),
+ ("F26", "C09", "fix: prefix_for_namespace keeps looking after a shadowed prefix", "prefix_for_namespace returned None as soon as it met a shadowed prefix although another prefix was bound"),
+ ("F27", "C09", "fix: qualified name of an attribute node never uses the default namespace", "node_name_ref/full_name of an attribute in namespace A with xmlns=\"A\" in scope reported the unprefixed name"),
  ("F31a", "C06", "fix: create_missing_prefixes returns an error for a document without an element", "create_missing_prefixes panicked on a document without element"),
 ]
 OPEN = [
+ {"property": "C09", "ledger": "F29",
+  "signature": "C09/node_name_ref/prefix-resolves-to-another-namespace/element-in-no-namespace-under-default-binding",
+  "what": "node_name_ref (also name_ref / full_name) of a no-namespace element with a default-namespace binding in scope reports the unprefixed name, which in that scope denotes the default namespace",
+  "witness": "<{urn:A}r xmlns=\"urn:A\"><x/></r> built through the creation API; node_name_ref(x) has prefix \"\""},
  {"property": "C01", "ledger": "F29",
   "signature": "C01/reparse-differs/name/unns-element-under-default-binding-reparsed-in-default-ns",
   "what": "a no-namespace element with a default-namespace binding in scope (no xmlns=\"\" on it) is written unprefixed and reparses in the default namespace",
